@@ -13,6 +13,9 @@ PROPS = {
     "C02": dict(sources=["c02.cpp"], flavours=["asan"], shards={"quick": 8, "thorough": 16}, level="exploration",
                 technique="rapidcheck-generated frame histories; independent decoder (well-formedness), per-request transmit budget, and 0xA5/0x5A fresh-memory differential as oracles",
                 assumptions=COMMON_ASSUME),
+    "C05": dict(sources=["c05.cpp"], flavours=["asan"], shards={"quick": 8, "thorough": 16}, level="exploration",
+                technique="exhaustive (ToS, opcode) x state single-step sweep plus rapidcheck histories, both judged by a non-deterministic 'possible mappers' reference model",
+                assumptions=COMMON_ASSUME + ["commands (Emit/Query/QueryLargeTlv) are issued only by the active mapper or while none is active (the statement's domain restriction)"]),
     "C03": dict(sources=["c03.cpp"], flavours=["asan"], shards={"quick": 4, "thorough": 16}, level="exploration",
                 technique="rapidcheck-generated frame histories; independent byte-level decoder as oracle; C05 reference model decides which Discovers must be accepted",
                 assumptions=COMMON_ASSUME),
